@@ -1,5 +1,6 @@
 """C06 - call-frame information is parsed and interpreted per DWARF / .eh_frame rules."""
 from symx.api import H
+from harness.dwarfkit import mk_dwarfinfo
 from spec import enc
 from spec import cfi as CFI
 
@@ -349,8 +350,18 @@ def h_scan(ctx):
     CF = ctx.lib('dwarf.callframe')
     data, want = _gen_section(ctx, cfg)
     secaddr = ctx.uint('section_address', 8 * addr) if eh else 0
-    cfi, st, base = _cfi(ctx, data, little, addr, eh=eh, address=secaddr)
-    entries = cfi.get_entries()
+    if cfg.get('via') == 'dwarfinfo':
+        # through the public accessors of DWARFInfo, on a file that has BOTH call-frame sections; the other one (a lone CIE) is asked
+        # for first: each accessor answers from its own section
+        other = enc.enc_int(12, 4, little) + enc.enc_int(0 if not eh else 0xffffffff, 4, little) + [1, 0, 1, 0x7c, 16, 0, 0, 0] + ([0, 0, 0, 0] if not eh else [])
+        secs = {'eh_frame': data, 'debug_frame': other} if eh else {'debug_frame': data, 'eh_frame': other}
+        di, _ = mk_dwarfinfo(ctx, little, addr, addresses={'eh_frame': secaddr} if eh else {}, **secs)
+        first = di.CFI_entries() if eh else di.EH_CFI_entries()
+        ctx.check_eq('scan/other-section-first', [type(x).__name__ for x in first], ['CIE'] + ([] if eh else ['ZERO']))
+        entries = di.EH_CFI_entries() if eh else di.CFI_entries()
+    else:
+        cfi, st, base = _cfi(ctx, data, little, addr, eh=eh, address=secaddr)
+        entries = cfi.get_entries()
     ctx.outcome('ok')
     ctx.check_eq('scan/count', len(entries), len(want))
     if len(entries) != len(want):
@@ -406,8 +417,14 @@ def h_scan(ctx):
                     if w['lsda_pcrel']:
                         l = l + secaddr + w['lsda_field']
                     ctx.check_eq('scan/fde/lsda%s' % ('/pcrel' if w['lsda_pcrel'] else ''), e.lsda_pointer, l)
-    # second request returns the same list
-    ctx.check('scan/memo', cfi.get_entries() is entries)
+    if cfg.get('via') == 'dwarfinfo':
+        # asking again, in either order, gives the same entries of the same sections
+        again = di.EH_CFI_entries() if eh else di.CFI_entries()
+        ctx.check_eq('scan/again', [(type(x).__name__, x.offset) for x in again], [(type(x).__name__, x.offset) for x in entries])
+        ctx.check_eq('scan/other-section-again', [type(x).__name__ for x in (di.CFI_entries() if eh else di.EH_CFI_entries())], ['CIE'] + ([] if eh else ['ZERO']))
+    else:
+        # second request returns the same list
+        ctx.check('scan/memo', cfi.get_entries() is entries)
 
 
 # ------------------------------------------------------------------ instances
@@ -523,7 +540,7 @@ HARNESSES = [
       desc='CFIEntry._decode_CFI_table on instruction lists built directly: (a) one step from an arbitrary initial row / CIE rule set (6 state shapes, all '
            'arguments symbolic) for every opcode, (b) CIE decoding, (c) pairs, (d) remember/restore_state patterns; alignment factors, offsets, locations symbolic; '
            'rows, CFA rule, register rules, reg_order equal the reference interpreter of DWARF 5 6.4.2'),
-    H('h6_1_scan', h_scan, _scan_instances, expect=('ok',),
+    H('h6_1_scan', h_scan, lambda tier: _scan_instances(tier) + [dict(c, via='dwarfinfo') for c in _scan_instances(tier)[::7]], expect=('ok',),
       desc='.debug_frame (CIE v1/3/4, DWARF32/64, addr 4/8, FDE before its CIE) and .eh_frame (augmentations z, zR, zLR, zPLR, zP, zS, zRS, zPR and other letter orders (zSR, zRSL, zSPLR, zRLP, zLSR); 9 pointer encodings x '
            'abs/pcrel; any section address) sections: kinds, order, offsets, header fields, augmentation dict/bytes, pc-relative initial_location and LSDA, FDE->CIE link'),
 ]
